@@ -32,7 +32,7 @@ REQUIRED_CLASSES = ["angle:cut-", "angle:cut+", "angle:pi", "angle:pi-1e-7", "an
 
 def plan(tier, seed):
     if tier == "quick":
-        nshard, n = 8, 5000
+        nshard, n = 16, 5000
     else:
         nshard, n = 16, 190000
     return [{"n": n, "timeout_s": 3600} for _ in range(nshard)]
@@ -71,6 +71,11 @@ def check_case(case, ctx, mr):
     def bad(clause, key, **detail):
         ctx.violation(clause, key, detail, case)
 
+    def cl(a, b, t):
+        ok, e = tol.close(a, b, t)
+        ctx.err(getattr(ctx, "last_clause", "?"), e if np.isfinite(e) else 1e300)
+        return ok, e
+
     def angle_zone():
         if th < 3e-6:
             return "near_zero"
@@ -100,7 +105,7 @@ def check_case(case, ctx, mr):
         bad("exp3.proper", "exp3.proper/" + angle_zone(), got=R)
         return
     ctx.clause("exp3.value")
-    ok, e = tol.close(R, Ro, tol.ABS5)
+    ok, e = cl(R, Ro, tol.ABS5)
     if not ok:
         bad("exp3.value", "exp3.value/" + angle_zone(), err=e, theta=th)
 
@@ -115,8 +120,8 @@ def check_case(case, ctx, mr):
     ctx.clause("exp6.value")
     nv = float(np.linalg.norm(v))
     tt = tol.entry_tol(nv, in_band, nv)
-    ok1, e1 = tol.close(T[:3, :3], Ro, tol.ABS5)
-    ok2, e2 = tol.close(T[:3, 3], To[:3, 3], tt)
+    ok1, e1 = cl(T[:3, :3], Ro, tol.ABS5)
+    ok2, e2 = cl(T[:3, 3], To[:3, 3], tt)
     if not (ok1 and ok2):
         bad("exp6.value", "exp6.value/" + angle_zone(), err_rot=e1, err_trans=e2, tol_trans=tt, theta=th)
 
@@ -126,13 +131,13 @@ def check_case(case, ctx, mr):
     if th < PI - 1e-6:
         ctx.clause("log3exp3.vec")
         wl = mr.so3ToVec(L)
-        ok, e = tol.close(wl, w, tol.ABS5)
+        ok, e = cl(wl, w, tol.ABS5)
         if not ok:
             bad("log3exp3.vec", "log3exp3/" + angle_zone(), err=e, theta=th, got=wl)
     # ---- (4) exp3(log3(R)) = R for every R -----------------------------
     ctx.clause("exp3log3.mat")
     R2 = mr.MatrixExp3(L)
-    ok, e = tol.close(R2, Rc, tol.ABS5)
+    ok, e = cl(R2, Rc, tol.ABS5)
     if not ok:
         bad("exp3log3.mat", "exp3log3/" + angle_zone(), err=e, theta=th)
     if th > 0:
@@ -141,7 +146,7 @@ def check_case(case, ctx, mr):
         Rh = _c(2.0 * np.outer(n, n) - np.eye(3))
         ctx.clause("exp3log3.halfturn_exact")
         Rh2 = mr.MatrixExp3(mr.MatrixLog3(Rh))
-        ok, e = tol.close(Rh2, Rh, tol.ABS5)
+        ok, e = cl(Rh2, Rh, tol.ABS5)
         if not ok:
             bad("exp3log3.halfturn_exact", "exp3log3/near_half_turn", err=e, axis=n)
 
@@ -151,8 +156,8 @@ def check_case(case, ctx, mr):
     if th < PI - 1e-6:
         ctx.clause("log6exp6.vec")
         Vl = mr.se3ToVec(L6)
-        ok1, e1 = tol.close(Vl[:3], w, tol.ABS5)
-        ok2, e2 = tol.close(Vl[3:], v, tt)
+        ok1, e1 = cl(Vl[:3], w, tol.ABS5)
+        ok2, e2 = cl(Vl[3:], v, tt)
         if not (ok1 and ok2):
             bad("log6exp6.vec", "log6exp6/" + angle_zone(), err_w=e1, err_v=e2, tol_v=tt, theta=th)
     # every rigid transform T = (R(w), p)
@@ -162,17 +167,17 @@ def check_case(case, ctx, mr):
     tp = tol.entry_tol(npn, 0.0 < eff < tol.BAND, npn)
     ctx.clause("exp6log6.mat")
     Tg2 = mr.MatrixExp6(mr.MatrixLog6(Tg))
-    ok1, e1 = tol.close(Tg2[:3, :3], Tg[:3, :3], tol.ABS5)
-    ok2, e2 = tol.close(Tg2[:3, 3], Tg[:3, 3], tp)
+    ok1, e1 = cl(Tg2[:3, :3], Tg[:3, :3], tol.ABS5)
+    ok2, e2 = cl(Tg2[:3, 3], Tg[:3, 3], tp)
     if not (ok1 and ok2 and np.array_equal(Tg2[3], [0.0, 0.0, 0.0, 1.0])):
         bad("exp6log6.mat", "exp6log6/" + angle_zone(), err_rot=e1, err_trans=e2, tol_trans=tp, theta=th)
 
     # ---- (7) inverse ----------------------------------------------------
     ctx.clause("inv")
     Ti = mr.TransInv(Tg)
-    ok, e = tol.close(Ti @ Tg, np.eye(4), tol.entry_tol(npn))
-    oko, eo = tol.close(Ti, se3.inv(Tg), tol.entry_tol(npn))
-    okr, er = tol.close(mr.RotInv(_c(Ro)) @ Ro, np.eye(3), tol.ABS5)
+    ok, e = cl(Ti @ Tg, np.eye(4), tol.entry_tol(npn))
+    oko, eo = cl(Ti, se3.inv(Tg), tol.entry_tol(npn))
+    okr, er = cl(mr.RotInv(_c(Ro)) @ Ro, np.eye(3), tol.ABS5)
     if not (ok and oko and okr):
         bad("inv", "inv", err=e, err_oracle=eo, err_rot=er)
 
@@ -182,20 +187,20 @@ def check_case(case, ctx, mr):
     A1, A2, A12 = mr.Adjoint(Tg), mr.Adjoint(T2), mr.Adjoint(T12)
     sc = max(1.0, npn + float(np.linalg.norm(p2)))
     ctx.clause("ad.hom")
-    okh, eh = tol.close(A12, A1 @ A2, tol.entry_tol(sc))
-    oko, eo = tol.close(A1, se3.Ad(Tg), tol.entry_tol(tol.maxabs(A1)))
+    okh, eh = cl(A12, A1 @ A2, tol.entry_tol(sc))
+    oko, eo = cl(A1, se3.Ad(Tg), tol.entry_tol(tol.maxabs(A1)))
     if not (okh and oko and A1.shape == (6, 6)):
         bad("ad.hom", "ad.hom", err=eh, err_oracle=eo)
     ctx.clause("ad.inv")
     Ai = mr.Adjoint(_c(mr.TransInv(Tg)))
-    ok, e = tol.close(Ai @ A1, np.eye(6), tol.entry_tol(max(1.0, npn)))
-    oko, eo = tol.close(Ai, se3.Ad(se3.inv(Tg)), tol.entry_tol(max(1.0, npn)))
+    ok, e = cl(Ai @ A1, np.eye(6), tol.entry_tol(max(1.0, npn)))
+    oko, eo = cl(Ai, se3.Ad(se3.inv(Tg)), tol.entry_tol(max(1.0, npn)))
     if not (ok and oko):
         bad("ad.inv", "ad.inv", err=e, err_oracle=eo)
     ctx.clause("ad.conj")
     lhs = Tg @ mr.VecTose3(u) @ mr.TransInv(Tg)
     rhs = mr.VecTose3(A1 @ u)
-    ok, e = tol.close(lhs, rhs, tol.entry_tol(max(1.0, npn) * max(1.0, tol.maxabs(u))))
+    ok, e = cl(lhs, rhs, tol.entry_tol(max(1.0, npn) * max(1.0, tol.maxabs(u))))
     if not ok:
         bad("ad.conj", "ad.conj", err=e)
 
@@ -212,7 +217,7 @@ def run_shard(spec, ctx):
         ctx.cls("angle:" + case["ac"])
         ctx.cls("axis:" + case["xc"])
         ctx.case({"w": gen.quant(case["w"]), "v": gen.quant(case["v"]), "p": gen.quant(case["p"]),
-                  "w2": gen.quant(case["w2"], 1e-6), "ac": case["ac"], "xc": case["xc"]}, nontriv)
+                  "w2": gen.quant(case["w2"], 1e-6), "ac": case["ac"], "xc": case["xc"]}, nontriv, sample=case)
         try:
             check_case(case, ctx, mr)
         except Exception as e:
